@@ -1,3 +1,4 @@
+import XPathV.Lemmas.ParserFuel
 import XPathV.Model.Api
 import XPathV.Lemmas.Facts
 /-!
@@ -55,5 +56,17 @@ theorem sequence_depth_guarded (f : Nat) (cfg : PCfg) (inp : Ast) (st : PState) 
 theorem expression_depth_guarded (f : Nat) (cfg : PCfg) (st : PState) (h : st.d + 1 > cfg.depthLimit) :
     parseExpression (f+1) cfg st = .error .tooComplex := by
   simp [parseExpression, h]
+
+/-- **the parser terminates by consuming input, not by running out of fuel**: with the fuel
+`fuelFor text = 40·(|text|+2)` the model parser never returns the `fuel` error, for every input text
+and namespace map (mutual induction over all 15 parser functions with a potential
+`40·remaining + rank`).  So fuel is a proof device, not a behaviour. -/
+theorem C06_total (ns : Option (List (String × String))) (text : List Char) :
+    parse (fuelFor text) (defaultCfg ns) text ≠ .error .fuel :=
+  Lemmas.ParserFuel.parse_fuel_enough_default ns text
+
+/-- every `nextItem` call makes progress: a non-EOF token consumes at least one character -/
+theorem scanner_progress (s0 s' : Scan) (h : s0.nextItem = .ok s') : Lemmas.ScanProgress.Prog s0 s' :=
+  Lemmas.ScanProgress.nextItem_prog s0 s' h
 
 end XPathV.Theorems.C06
